@@ -16,7 +16,8 @@ Inductive wcall :=
 | CMsg (k : nat) (parts : nat)      (* a data message of k+1 frames (Write: k = 0; Writer with k Write calls + Close), each frame written in parts+1 transport writes *)
 | CPing (parts : nat)               (* writeControl(opPing) *)
 | CClose (parts : nat)              (* Close: Close frame, then close() *)
-| CCloseNow.                        (* CloseNow: close() *)
+| CCloseNow                         (* CloseNow: close() *)
+| CEcho (parts : nat).              (* the read side answering the peer's Close frame: writeClose, then close() — no casClosing (read.go handleControl) *)
 
 Inductive fkind := FData | FPing | FClose.
 
@@ -88,6 +89,7 @@ Definition step (s : st) (e : ev) : option st :=
           if closing s then Some (with_thr s t (ret th false))
           else Some {| msg_mu := msg_mu s; frame_mu := frame_mu s; closed := closed s; closing := true; close_sent := close_sent s; client := client s;
                        thrs := upd (thrs s) t (set_ph th DoClose); wire := wire s |}
+      | CEcho parts :: _ => Some (with_thr s t (set_ph th (WantFrame FClose 0 parts 0)))
       end
     | WantMsg k parts =>
       if alt then (if closed s then Some (with_thr s t (ret th false)) else None)
@@ -101,7 +103,18 @@ Definition step (s : st) (e : ev) : option st :=
       (* failing to get the frame lock: a data writer keeps msgWriter.mu (write.go: mu stays locked on error) unless it is Conn.Write's single frame;
          Close carries on to close() *)
       let fail := match fk with FClose => set_ph th DoClose | _ => ret th false end in
-      if alt then (if closed s then Some (with_thr s t fail) else None)
+      if alt then
+        (if closed s then Some (with_thr s t fail)
+         else match fk with
+              | FData =>
+                (* a compressed message after the Close frame: the retained flate.Writer carries the refusal of an earlier
+                   write as a sticky error, so the write is refused without ever reaching writeFrame; msgWriter.mu is released *)
+                if close_sent s then
+                  Some {| msg_mu := None; frame_mu := frame_mu s; closed := closed s; closing := closing s; close_sent := close_sent s; client := client s;
+                          thrs := upd (thrs s) t (ret th false); wire := wire s |}
+                else None
+              | _ => None
+              end)
       else match frame_mu s with
            | Some _ => None
            | None => if closed s then Some (with_thr s t fail)
